@@ -6,8 +6,11 @@ p_mem_set_vtable), /proc/self/fd, mappings (the /proc/self/maps lines of the seq
 scratch library, sem_open handles, anonymous mappings), /dev/shm names of the sequence, native TLS keys — and
 diffed with the model.  Sequences mix containers, INI, hashes, errors, directories, sockets (refused connect to
 a closed loopback port, timed-out connect and accept), semaphores, shm and shm buffers opened with equal /
-different sizes, threads (joined and detached), TLS, locks, the library loader on a tiny .so, init/shutdown
-pairs, injected allocator failures (once / from k on / bit masks) and scripted system-call failures.
+different sizes, semaphores opened and re-created (access mode CREATE on an existing name), threads (joined and detached,
+with an extra reference), TLS, locks, the library loader on a tiny .so, I/O on closed sockets, init/shutdown pairs, injected
+allocator failures (once / from k on / bit masks) and scripted system-call failures (socket, fcntl(F_SETFL), sem_open, shm_open,
+ftruncate, mmap, dlopen, pthread_*; close interrupted by a signal in directed cases).  After every call the harness also reads
+every live object back through the public getters: a call that changes an object it is not allowed to change answers X.
 Every sequence ends by freeing whatever is left and shutting the library down: the last line must be all zeros.
 A `close` interposer counts closes of descriptors that are not open (fd_closed_once)."""
 import re
@@ -21,7 +24,7 @@ DESTRUCTORS = ["cond_free", "dir_free", "dirent_free", "err_free", "hash_free", 
                "mmap_free", "mutex_free", "prof_free", "rwlock_free", "rwlockg_free", "sa_free", "sem_free", "shm_free",
                "shmbuf_free", "sock_free", "spin_free", "str_free", "strlist_free", "thread_unref", "tls_free", "tree_free"]
 SYSCALLS = ["mmap", "ftruncate", "shm_open", "socket", "pthread_create", "pthread_key_create", "pthread_mutex_init",
-            "pthread_cond_init", "dlopen"]
+            "pthread_cond_init", "dlopen", "fcntl", "sem_open", "fcntl", "sem_open"]
 
 
 def call_pool(rng):
@@ -52,10 +55,10 @@ def call_pool(rng):
         "sock_new %d %d %s" % (sl(), rng.randrange(2), e()), "sock_bad %s" % e(), "sock_listen %d %s" % (sl(), e()),
         "sock_connect %d %d %s" % (sl(), sl(), e()), "sock_connect_refused %d %s" % (sl(), e()), "sock_connect_timeout %d %s" % (sl(), e()),
         "sock_accept %d %d %s" % (sl(), sl(), e()), "sock_local %d %d %s" % (sl(), sl(), e()), "sock_remote %d %d %s" % (sl(), sl(), e()),
-        "sock_udp_echo %d %d %s" % (sl(), sl(), e()), "sock_close %d %s" % (sl(), e()), "sock_free %d" % sl(), "sock_from_fd %d %s" % (sl(), e()),
-        "sem_new %d %d 0 %s" % (sl(), rng.randrange(3), e()), "sem_cycle %d %s" % (sl(), e()), "sem_own %d" % sl(), "sem_free %d" % sl(),
+        "sock_udp_echo %d %d %s" % (sl(), sl(), e()), "sock_close %d %s" % (sl(), e()), "sock_io_closed %d %d %s" % (sl(), rng.randrange(7), e()), "dir_create_missing %s" % e(), "dir_remove_missing %s" % e(), "sock_free %d" % sl(), "sock_from_fd %d %s" % (sl(), e()),
+        "sem_new %d %d %d %s" % (sl(), rng.randrange(3), rng.choice([0, 0, 1]), e()), "sem_cycle %d %s" % (sl(), e()), "sem_own %d" % sl(), "sem_free %d" % sl(),
         "shm_new %d %d %d %s" % (sl(), rng.randrange(3), rng.choice(SHM_SIZES), e()), "shm_own %d" % sl(), "shm_cycle %d %s" % (sl(), e()), "shm_free %d" % sl(),
-        "shmbuf_new %d %d %d %s" % (sl(), 3 + rng.randrange(3), rng.choice(SHM_SIZES), e()), "shmbuf_rw %d %s" % (sl(), e()), "shmbuf_own %d" % sl(),
+        "shmbuf_new %d %d %d %s" % (sl(), 3 + rng.randrange(3), rng.choice(SHM_SIZES), e()), "shmbuf_rw %d %s" % (sl(), e()), "shmbuf_fill %d %s" % (sl(), e()), "shmbuf_own %d" % sl(),
         "shmbuf_free %d" % sl(),
         "mutex_new %d" % sl(), "mutex_free %d" % sl(), "cond_new %d" % sl(), "cond_free %d" % sl(), "rwlock_new %d" % sl(), "rwlock_free %d" % sl(),
         "spin_new %d" % sl(), "spin_free %d" % sl(), "prof_new %d" % sl(), "prof_free %d" % sl(), "rwlockg_new %d" % sl(), "rwlockg_free %d" % sl(),
@@ -131,6 +134,14 @@ def directed_cases():
                 "call shmbuf_free 1", "call sock_new 2 0 12", "call sock_listen 2 12", "call sock_new 3 0 12", "call sock_connect 3 2 12",
                 "call sock_accept 2 4 12", "call sysfail close", "call sock_free 4", "call sysfail close", "call sock_free 3", "call sysfail close",
                 "call sock_free 2", "call err_free 12", "call lib_shutdown", "end"])
+    # access mode CREATE on a name that exists: the object is re-created and the new handle owns it (its free removes the name);
+    # scripted failures of sem_open / fcntl(F_SETFL) on the error exits that already hold a descriptor, a mapping or a name
+    out.append(["begin", "call lib_init", "call sem_new 0 0 0 x", "call sem_new 1 0 1 x", "call sem_cycle 1 x", "call sem_free 1", "call sem_new 2 0 0 x",
+                "call sem_new 3 0 1 12", "call sem_free 0", "call sem_free 3", "call sem_free 2", "call err_free 12", "call lib_shutdown", "end"])
+    out.append(["begin", "call lib_init", "call sysfail fcntl", "call sock_new 0 0 12", "call sock_new 1 0 12", "call sock_listen 1 12", "call sock_new 2 0 12",
+                "call sock_connect 2 1 12", "call sysfail fcntl", "call sock_accept 1 3 12", "call sysfail fcntl", "call sock_from_fd 4 12", "call sysfail sem_open",
+                "call shm_new 5 2 0 12", "call shm_new 5 2 0 12", "call sysfail sem_open", "call shm_new 6 2 2 12", "call sysfail sem_open", "call shmbuf_new 7 3 0 12",
+                "call sysfail sem_open", "call sem_new 8 4 1 12", "call shm_free 5", "call sock_free 2", "call sock_free 1", "call err_free 12", "call lib_shutdown", "end"])
     out.append(["begin", "call lib_init", "call lib_shutdown", "call lib_init", "call cur_thread", "call lib_shutdown", "call lib_init",
                 "call tls_new 0", "call tls_set 0", "call thread_run 1 1 1 0", "call thread_run 2 0 1 0", "call thread_unref 2", "call thread_unref 1",
                 "call tls_free 0", "call lib_shutdown", "end"])
@@ -182,7 +193,7 @@ def run(chk):
         thorough = chk.tier == "thorough"
         rng = chk.rng
         cases = pv.load_corpus("C20") + directed_cases()
-        nrand = 1500 if thorough else 220
+        nrand = 1200 if thorough else 220
         lengths = [30, 80, 200, 400] if thorough else [20, 60, 120]
         cases += [gen_case(rng, rng.choice(lengths), chk) for _ in range(nrand)]
         found, corr, thm = diffrun.campaign(chk, fam, cases, proof_ok, detail, signature_of, "C20", batch=12, reset="begin")
